@@ -21,6 +21,7 @@ type PropConfig struct {
 	Functions   []string `json:"functions"`
 	Structural  []string `json:"structural"` // names of structural (frames back end) checks
 	RoundTrips  []vc.RoundTrip `json:"roundtrips"` // From(To(x)) == x lemmas over two real functions
+	Lemmas      []string `json:"lemmas"` // names of //@ lemma declarations in the contract files
 	Assumptions []string `json:"assumptions"`
 	Unverified  []string `json:"unverified"`
 	Note        string   `json:"note"`
@@ -167,9 +168,42 @@ func cmdCheck(args []string) {
 		all = append(all, v.Obls...)
 		notes = append(notes, v.Notes...)
 	}
+	for _, ln := range cfg.Lemmas {
+		v, err := eng.VerifyLemma(ln)
+		if err != nil {
+			unbound = append(unbound, "lemma "+ln+": "+err.Error())
+			continue
+		}
+		if len(v.Unsupp) > 0 {
+			unbound = append(unbound, "lemma "+ln+": "+v.Unsupp[0])
+			continue
+		}
+		funcsUnder = append(funcsUnder, "lemma "+ln)
+		all = append(all, v.Obls...)
+		notes = append(notes, v.Notes...)
+	}
 	// structural (frames back end) obligations
 	sres := runStructural(eng, cfg.Structural)
 	results := vc.DischargeAll(all, timeout, 14, agree)
+	// an obligation that ran out of time under load is retried alone with three
+	// times the budget before it is reported (a timeout is not a refutation)
+	var retry []*vc.Obligation
+	var retryIdx []int
+	for i, r := range results {
+		if !r.OK && !r.Obl.ExpectSat && r.Status != "sat" {
+			retry = append(retry, r.Obl)
+			retryIdx = append(retryIdx, i)
+		}
+	}
+	if len(retry) > 0 && len(retry) <= 24 {
+		rr := vc.DischargeAll(retry, timeout*3, 4, false)
+		for k, r := range rr {
+			if r.OK {
+				r.Seconds += results[retryIdx[k]].Seconds
+				results[retryIdx[k]] = r
+			}
+		}
+	}
 	type fail struct {
 		name, status, output, kind, desc, pos string
 		query                                 string
